@@ -19,6 +19,7 @@ type c13Spec struct {
 	Kind string `json:"kind"` // cropparam | soil | rotation | endit | weather | dates
 	File string `json:"file,omitempty"`
 	Var  int    `json:"var,omitempty"`
+	Hist int    `json:"hist,omitempty"` // 1: all encodings run in ONE session that first ran another project (other column orders, formats, layout); 2: one session, encodings in reverse order
 }
 
 func c13Specs(tier string, seed int) []c13Spec {
@@ -41,11 +42,26 @@ func c13Specs(tier string, seed int) []c13Spec {
 	for v := 0; v < 12; v++ {
 		out = append(out, c13Spec{Kind: "endit", Var: v})
 	}
-	for v := 0; v < 12; v++ { // 8..11: with the monthly precipitation correction switched on
+	for v := 0; v < 16; v++ { // 8..11: with the monthly precipitation correction switched on; 12..15: no radiation column, four missing-value codes
 		out = append(out, c13Spec{Kind: "weather", Var: v})
 	}
 	for v := 0; v < 6; v++ {
 		out = append(out, c13Spec{Kind: "dates", Var: v})
+	}
+	// the same cases with a session history: readers that keep anything from an earlier run of the session would decode
+	// this project's files in the other project's terms
+	for _, k := range []struct {
+		kind string
+		n    int
+	}{{"soil", len(c13Soils())}, {"rotation", 8}, {"endit", 12}, {"weather", 16}, {"dates", 6}} {
+		for v := 0; v < k.n; v++ {
+			if tier == "thorough" || v%3 == 0 {
+				out = append(out, c13Spec{Kind: k.kind, Var: v, Hist: 1})
+			}
+			if tier == "thorough" || v%3 == 1 {
+				out = append(out, c13Spec{Kind: k.kind, Var: v, Hist: 2})
+			}
+		}
 	}
 	return out
 }
@@ -145,7 +161,9 @@ func c13NoDateCols(vars string) string {
 func c13Run(raw json.RawMessage, c *mc.Ctx) {
 	sp := mc.Decode[c13Spec](raw)
 	root := scratchRoot()
-	defer os.RemoveAll(root)
+	base := root
+	defer os.RemoveAll(base)
+	nenc := 0
 	type enc struct {
 		name string
 		res  string
@@ -153,9 +171,46 @@ func c13Run(raw json.RawMessage, c *mc.Ctx) {
 		err  string
 	}
 	var encs []enc
+	var session *hermes.HermesSession
+	if sp.Hist > 0 {
+		session = hermes.NewHermesSession()
+		defer session.Close()
+	}
+	if sp.Hist == 1 {
+		// the other project: soil table with reversed column order, CSV rotation and measurements, YAML crop parameters,
+		// month-first dates, weather station HH in the day-of-year layout
+		hb := e1Base{Soil: "sand20", GW: 12, DrainDep: 8, DrainFrac: 0.5, InitW: 0.5, InitN: 55, ET: 2, Start: "1999-02-10"}
+		hp := e1Project(hb, 200)
+		hp.ID, hp.Plot, hp.Field, hp.SoilID, hp.FCode = "hh", "9", "H9", "077", "HH"
+		hp.SoilCSVOrder = 1
+		hp.Layout = 2
+		hp.Rotation = append(hp.Rotation[:1], proj.CropEntry{Crop: "SW", Sow: "1999-03-20", Harvest: "1999-08-10", Rex: 20}, proj.CropEntry{Crop: "WR", Sow: "1999-09-20", Harvest: "2000-07-30"})
+		hp.Fert = []proj.Fert{{Date: "1999-04-10", Amount: 70, Kind: "AHL"}}
+		hp.Config["Dateformat"] = "DateENlong"
+		hp.Config["EndDate"] = proj.DateStr("DateENlong", proj.D("1999-08-27"))
+		hp.Config["CropParameterFormat"] = "yml"
+		hp.Weather = seasonWeather(proj.D(hp.WeatherStart), 230)
+		hp.Write(root)
+		r := proj.RunSession(session, root, hp.Args(root), "[h]", nil)
+		c.Trace(1)
+		if !r.Success || r.Panic != "" {
+			mc.HarnessError("C13: history project failed: %s %s", r.Err, r.Panic)
+		}
+	}
 	run := func(name string, p *proj.Project, extra ...string) {
 		os.RemoveAll(filepath.Join(root, "out"))
-		r := proj.Run(root, p.Args(root, extra...), nil)
+		var r *proj.RunResult
+		if session != nil {
+			r = proj.RunSession(session, root, p.Args(root, extra...), "[0]", nil)
+		} else {
+			r = proj.Run(root, p.Args(root, extra...), nil)
+		}
+		if session != nil {
+			// a session takes input files as immutable: the next encoding is written into a working directory of its own
+			nenc++
+			root = filepath.Join(base, fmt.Sprintf("enc%d", nenc))
+			os.MkdirAll(root, 0o755)
+		}
 		c.Trace(1)
 		c.Transition(1)
 		encs = append(encs, enc{name, c18Files(r), r.Success && r.Panic == "", r.Err + r.Panic})
@@ -249,7 +304,7 @@ func c13Run(raw json.RawMessage, c *mc.Ctx) {
 		os.Remove(filepath.Join(root, "project", p.ID, "endit_"+p.ID+".txt"))
 		run("csv", p)
 	case "weather":
-		et := []int{3, 2, 4, 1, 3, 2, 3, 4, 3, 2, 3, 4}[sp.Var]
+		et := []int{3, 2, 4, 1, 3, 2, 3, 4, 3, 2, 3, 4, 3, 2, 4, 3}[sp.Var]
 		b := e1Base{Soil: "loam12", GW: 99, InitW: 0.7, InitN: 30, ET: et, Start: []string{"2001-08-15", "2003-12-30", "2000-01-01", "1999-03-01"}[sp.Var%4]}
 		p := e1Project(b, 500)
 		st := proj.D(b.Start)
@@ -264,13 +319,18 @@ func c13Run(raw json.RawMessage, c *mc.Ctx) {
 		if sp.Var >= 4 {
 			p.SunColumn = true
 		}
+		if sp.Var >= 12 {
+			// no global radiation in the input (derived from the sunshine hours), with the default and with other missing-value codes
+			p.NoRadColumn = true
+			p.Config["WeatherNoneValue"] = []string{"-99.9", "999.9", "-999", "-1"}[sp.Var-12]
+		}
 		if et == 1 {
 			p.VerdColumn = true
 			for i := range p.Weather {
 				p.Weather[i].Verd = satDeficit(p.Weather[i])
 			}
 		}
-		if sp.Var >= 8 {
+		if sp.Var >= 8 && sp.Var < 12 {
 			p.Config["CorrectionPrecipitation"] = "1"
 			// rain on every day so that the month boundaries (and 29 February) carry rain
 			for i := range p.Weather {
@@ -284,7 +344,7 @@ func c13Run(raw json.RawMessage, c *mc.Ctx) {
 			delete(p.Config, "WeatherNumHeader")
 			os.RemoveAll(filepath.Join(root, "weather"))
 			p.Write(root)
-			if sp.Var >= 8 {
+			if sp.Var >= 8 && sp.Var < 12 {
 				os.WriteFile(filepath.Join(root, "weather", "w", "preco.txt"), []byte("Mo Corr\n 1 1.25\n 2 1.50\n 3 1.12\n 4 1.06\n 5 1.03\n 6 1.00\n 7 0.75\n 8 1.75\n 9 1.37\n10 1.62\n11 1.87\n12 2.00\n"), 0o644)
 			}
 			run(fmt.Sprintf("layout%d", layout), p)
@@ -320,10 +380,13 @@ func c13Run(raw json.RawMessage, c *mc.Ctx) {
 		label = fmt.Sprintf("project %d in the four date formats", sp.Var)
 	}
 	c.Eval(1)
-	h := mc.NewHasher().S(sp.Kind).S(sp.File).I(sp.Var).Sum()
+	h := mc.NewHasher().S(sp.Kind).S(sp.File).I(sp.Var).I(sp.Hist).Sum()
 	c.State(h)
 	if len(encs) < 2 {
 		return
+	}
+	if sp.Hist > 0 {
+		label += fmt.Sprintf(" [all encodings in one session, history %d]", sp.Hist)
 	}
 	c.NonTrivial(h)
 	for i, e := range encs {
